@@ -24,6 +24,11 @@ def main():
             res = getattr(mod, fn)(r)
             if not isinstance(res, dict):
                 res = {"violation": bool(res)}
+        except (IndexError, UnboundLocalError, NameError) as e:
+            # an index / unbound-variable error escaping the real code (NUMBA_BOUNDSCHECK=1 or interpreter fallback)
+            # confirms a memory counterexample whatever the replay function was looking for
+            res = {"violation": r.get("kind") == "replay", "match": False, "detail": "%s: %s" % (type(e).__name__, e),
+                   "trace": traceback.format_exc()[-800:]}
         except BaseException as e:  # noqa
             res = {"violation": False, "match": False, "driver_error": "%s: %s" % (type(e).__name__, e),
                    "trace": traceback.format_exc()[-1500:]}
